@@ -175,6 +175,10 @@ def build_class(mod, spec, idx):
         if top:
             ns["MODE_NAME"] = spec["mode_name"]
             ns["_call"] = _call
+        else:
+            # a base class of the mode is a mode class of its own (DriveForward, with DriveAndShoot(DriveForward) derived from it)
+            ns["MODE_NAME"] = "%s_b%d" % (spec["mode_name"], ci)
+            ns["_call"] = lambda self, name, tm, stm, init: None
         for d in c["defs"]:
             if d["kind"] == "other":
                 ns[d["name"]] = {"method": (lambda self: None), "none": None, "const": 3.5}[d.get("as", "method")]
@@ -188,6 +192,7 @@ def build_class(mod, spec, idx):
                 ns[d["name"]] = mod.state(f, first=d["first"])
         bases = tuple(built[j] for j in c["bases"]) or (mod.StatefulAutonomous,)
         built.append(type("SA_%d%s" % (idx, "" if top else "_b%d" % ci), bases, ns))
+    build_class.bases_built = built[:-1]
     return built[-1]
 
 
@@ -200,6 +205,14 @@ def run_impl(mod, spec, ops, idx=0):
     """Returns (constructor exception class or None, events per op, harness problems)."""
     cls = build_class(mod, spec, idx)
     problems = []
+    if idx % 2 == 0:
+        # the selector creates every mode at start-up: a base mode class may well have been instantiated before the derived
+        # one is (nothing of that instance may reach the mode under test); a base that cannot be built on its own is fine
+        for b_ in build_class.bases_built:
+            try:
+                b_(spec.get("components"))
+            except Exception:  # noqa
+                pass
     try:
         m = cls(spec.get("components"))
     except Exception as e:  # noqa
